@@ -64,11 +64,11 @@ def _strategy(maxW: int):
                 st_["mask"] = [True] + [draw(st.booleans()) for _ in range(npar - 1)]
                 steps.append(st_)
         dc.st_param_edits(draw, steps, len(shapes))
-        return {"flavour": fl, "R": R, "S": S, "G": G, "comm_params": draw(st.booleans()), "comm_dtype": draw(st.sampled_from(["default", "fp32", "fp16", "bf16"])),
+        return dc.st_exponent_range_class(draw, {"flavour": fl, "R": R, "S": S, "G": G, "comm_params": draw(st.booleans()), "comm_dtype": draw(st.sampled_from(["default", "fp32", "fp16", "bf16"])),
                 "cfg": cfg, "shapes": shapes, "pseed": draw(st.integers(0, 10**5)), "steps": steps, "repair": True,
                 "pdtypes": (draw(st.one_of(st.lists(st.sampled_from(["bf16", "f32", "f32", "f16"]), min_size=len(shapes), max_size=len(shapes)), st.just(["f16"] * len(shapes))))
                             if (draw(st.sampled_from([False] * 4 + [True])) and cfg["pdtype"] in ("f32", "bf16")) else None),
-                "mesh_perm": (_sorted_columns(draw(st.permutations(list(range(R * S)))), R, S) if (R * S > 1 and fl in ("hsdp", "hybrid_shard") and draw(st.integers(0, 3)) == 0) else None)}
+                "mesh_perm": (_sorted_columns(draw(st.permutations(list(range(R * S)))), R, S) if (R * S > 1 and fl in ("hsdp", "hybrid_shard") and draw(st.integers(0, 3)) == 0) else None)})
 
     return case()
 
